@@ -620,6 +620,9 @@ class Interp:
             idx = self.eval(t.slice)
             if isinstance(obj, (list, dict)) and not is_sym(idx):
                 obj[idx] = v
+            elif isinstance(obj, GDict) and not is_sym(idx):
+                obj.present[idx] = True
+                obj.entries[idx] = v
             else:
                 raise Unsupported("subscript store at line %d" % t.lineno)
         else:
@@ -774,6 +777,9 @@ class Interp:
 
     def e_Subscript(self, e):
         obj = self.eval(e.value)
+        if isinstance(e.slice, ast.Slice) and isinstance(obj, GStr) and "slice" in obj.ops and e.slice.step is None:
+            return obj.ops["slice"](self, obj, self.eval(e.slice.lower) if e.slice.lower is not None else None,
+                                    self.eval(e.slice.upper) if e.slice.upper is not None else None)
         if isinstance(e.slice, ast.Slice) and isinstance(obj, GStr):
             if e.slice.upper is not None or e.slice.step is not None or e.slice.lower is None or "suffix" not in obj.ops:
                 raise Unsupported("slice of a ghost string other than s[i:] at line %d" % e.lineno)
@@ -1035,12 +1041,27 @@ class Interp:
 
     def equal(self, a, b):
         """Python == on the value model."""
+        if isinstance(a, GStr) or isinstance(b, GStr):
+            if a is b:
+                return True
+            g, o = (a, b) if isinstance(a, GStr) else (b, a)
+            if "eq" not in g.ops:
+                raise Unsupported("== on a ghost string whose contract does not define it")
+            return g.ops["eq"](self, g, o)
         if isinstance(a, SRec) or isinstance(b, SRec):
             if a is b:
                 return True
             if not (isinstance(a, SRec) and isinstance(b, SRec)):
                 return False          # a dataclass instance never equals a value of another type
             raise Unsupported("== on records")
+        if isinstance(a, (tuple, list)) and isinstance(b, (tuple, list)) and not isinstance(a, PSet) and not isinstance(b, PSet):
+            # element-wise, so that symbolic values nested in concrete containers are compared symbolically
+            if isinstance(a, tuple) is not isinstance(b, tuple) or len(a) != len(b):
+                return False
+            terms = [self.equal(x, y) for x, y in zip(a, b)]
+            if all(isinstance(t, bool) for t in terms):
+                return all(terms)
+            return mk_bool(z3.And([zbool(t) for t in terms]))
         if not is_sym(a) and not is_sym(b):
             return a == b
         # symbolic cases
@@ -1084,7 +1105,7 @@ class Interp:
         if isinstance(v, GStr):
             return v.length > 0
         if isinstance(v, GObj):
-            return True
+            return True if v.truthy is None else v.truthy
         return bool(v)
 
     def truth(self, v):
@@ -1137,13 +1158,27 @@ class Interp:
     def e_Lambda(self, e):
         return _Closure(self, e)
 
+    def e_NamedExpr(self, e):
+        v = self.eval(e.value)
+        self.assign(e.target, v)
+        return v
+
+    def s_FunctionDef(self, s):
+        if s.decorator_list or s.args.kwonlyargs or s.args.kwarg or s.args.defaults:
+            raise Unsupported("nested def with decorators / keyword-only / default arguments at line %d" % s.lineno)
+        self.env[s.name] = _Closure(self, s)
+
     def e_Call(self, e):
         fn = self.eval(e.func)
         args = self.eval_elts(e.args)
         kwargs = {}
         for k in e.keywords:
             if k.arg is None:
-                raise Unsupported("**kwargs call")
+                d = self.eval(k.value)
+                if not isinstance(d, dict) or isinstance(d, GDict) or any(not isinstance(x, str) for x in d):
+                    raise Unsupported("**kwargs call with something other than a dict with concrete string keys")
+                kwargs.update(d)
+                continue
             kwargs[k.arg] = self.eval(k.value)
         return self.apply(fn, args, kwargs, e)
 
@@ -1169,7 +1204,7 @@ class Interp:
             return b(self, node, *args, **kwargs)
         import types
         if isinstance(fn, types.FunctionType) and getattr(fn, "__module__", None) and self.info.qualname.startswith(fn.__module__ + ".") \
-                and "." not in fn.__qualname__:
+                and fn.__qualname__.count(".") <= 1 and "<" not in fn.__qualname__:
             # a helper of the same module that has no contract of its own (e.g. one extracted by a refactoring) is
             # executed from its body, like any other statement of the function under verification
             eng.auto_inlined = getattr(eng, "auto_inlined", set()) | {fn.__module__ + "." + fn.__qualname__}
@@ -1195,6 +1230,15 @@ class _Closure:
         sub.env.update(zip(names, args))
         if va is not None:
             sub.env[va.arg] = tuple(args[len(names):])
+        if isinstance(self.node, ast.FunctionDef):
+            # a nested def: late binding of the enclosing scope is approximated by the scope at definition time plus
+            # the definition itself (recursion); sufficient for helpers that only read enclosing names assigned before
+            sub.env.setdefault(self.node.name, self)
+            try:
+                sub.block(self.node.body)
+            except _Return as r:
+                return r.value
+            return None
         return sub.eval(self.node.body)
 
 
@@ -1504,12 +1548,19 @@ class GStr:
     def __init__(self, length, tag=None, ops=None):
         self.length, self.tag, self.ops = length, tag, ops or {}
 
+    def __repr__(self):
+        return "GStr%r" % (self.tag,)
+
 
 class GObj:
     """An opaque object with contract-defined methods: methods[name](interp, *args) -> value."""
 
-    def __init__(self, label, methods=None, attrs=None):
+    def __init__(self, label, methods=None, attrs=None, truthy=None):
         self.label, self.methods, self.attrs = label, dict(methods or {}), dict(attrs or {})
+        self.truthy = truthy            # None: always true (a plain object); a z3 Bool: the result of its __bool__ / __len__
+
+    def __repr__(self):
+        return "GObj(%s)" % self.label
 
 
 class PSet(list):
@@ -1543,7 +1594,14 @@ def _b_enumerate(interp, node, seq, start=0):
     return list(enumerate(interp.as_sequence(seq, node), start))
 
 
+def _b_getattr(interp, node, obj, name, *default):
+    if not isinstance(name, str) or default:
+        raise Unsupported("getattr with a symbolic name or a default")
+    return interp.getattr(obj, name, node)
+
+
 _BUILTINS = {
+    id(getattr): _b_getattr,
     id(zip): _b_zip, id(enumerate): _b_enumerate, id(set): _b_set, id(int): _b_int, id(str): _b_str, id(abs): _b_abs, id(max): _minmax(True), id(min): _minmax(False),
     id(len): _b_len, id(all): _b_all, id(any): _b_any, id(isinstance): _b_isinstance, id(tuple): _b_tuple,
     id(list): _b_list, id(range): _b_range, id(bool): _b_bool, id(sorted): _b_sorted,
